@@ -346,6 +346,16 @@ pub fn run(tier: Tier, replay: Option<&str>) {
                     }
                 }
             }
+            // P7: a re-join on a default channel whose downlink frequency was remapped (dynamic plans)
+            if !fixed {
+                for idx in 0..3u8 {
+                    for f in [cmds::freqs(region)[3], cmds::freqs(region)[2]] {
+                        for draw in 0..8u32 {
+                            cases.push(Case { dlchannel: Some((idx, f)), join: true, draw, ..base(abp.clone()) });
+                        }
+                    }
+                }
+            }
             // P5: joins (fixed plans: join bias settings and every channel)
             let biases: Vec<Option<(u8, usize)>> = if fixed { vec![None, Some((1, 1)), Some((2, 1)), Some((8, 1)), Some((2, 8))] } else { vec![None] };
             for b in biases {
@@ -385,7 +395,7 @@ pub fn run(tier: Tier, replay: Option<&str>) {
     let coverage = json!({
         "evaluations": ctx.evals(),
         "distinct_nontrivial": nontrivial.load(Ordering::Relaxed),
-        "rule": "six full sub-products per region and front-end (nb, async, async+Class C), each case a fresh real device brought into the configuration by authentic RXParamSetupReq / RXTimingSetupReq / DlChannelReq downlinks and set_datarate: (P1) every region-defined uplink data rate x RX1DROffset 0..7 x first RNG draw (all 64 for the 72-channel plans); (P2) RXTimingSetupReq delay 0..15 x board offset/lead {0,15,50,100} x TX end time; (P3) all 16 RX2 data rate values x 2 frequencies x lowest/highest uplink rate; (P4) DlChannelReq on channels 0..3 x 2 frequencies x draws; (P5) joins under join-bias settings x draws; (P6, nb) set_datarate between TX and the windows. non-trivial = cases with an installed override or a join",
+        "rule": "seven full sub-products per region and front-end (nb, async, async+Class C), each case a fresh real device brought into the configuration by authentic RXParamSetupReq / RXTimingSetupReq / DlChannelReq downlinks and set_datarate: (P1) every region-defined uplink data rate x RX1DROffset 0..7 x first RNG draw (all 64 for the 72-channel plans); (P2) RXTimingSetupReq delay 0..15 x board offset/lead {0,15,50,100} x TX end time; (P3) all 16 RX2 data rate values x 2 frequencies x lowest/highest uplink rate; (P4) DlChannelReq on channels 0..3 x 2 frequencies x draws; (P5) joins under join-bias settings x draws; (P6, nb) set_datarate between TX and the windows; (P7) a re-join on a default channel after DlChannelReq remapped its downlink frequency. non-trivial = cases with an installed override or a join",
         "samples": [serde_json::to_value(&cases[0]).unwrap(), serde_json::to_value(&cases[cases.len() / 2]).unwrap(), serde_json::to_value(cases.last().unwrap()).unwrap()],
         "exhaustive": true,
         "regions": regions,
